@@ -220,6 +220,9 @@ def detect_strategy():
             "prepend": st.one_of(st.just(b""), st.binary(max_size=64), st.integers(0, 900).map(lambda n: b"\x90" * n)),
             "e_lfanew": st.one_of(st.sampled_from([0x40, 0x80, 0xF8, 0x3F0, 0x3FF]), st.integers(0x40, 0x3FF)),
             "tail": st.binary(max_size=37),
+            # detection is repeated with an explicit search range: None = not at all, a number = that much further than the
+            # nonce and size field reach into the file (capped at the default 1024), "2048"/"65536" = a wider range
+            "maxrange": st.one_of(st.none(), st.integers(0, 40), st.sampled_from([0, 1, 64, 120, 128, 256, 2048, 65536])),
         }
     )
     negative = st.fixed_dictionaries(
@@ -272,6 +275,20 @@ def detect_execute(case, stats):
         eq(got_view, want_view, "detect:view_content", f"view at nonce_offset {r.nonce_offset}")
         check(pebuild.scan_mz(got_view) is not None, "detect:no_pe_in_view", ctx)
         cls = "accepted"
+    if true_off is not None and case.get("maxrange") is not None and not isinstance(r, Raised):
+        # ``maxrange`` is how far into the FILE nonce_offset candidates are looked for: a range that covers stub, nonce and
+        # size field finds the same stage (ranges up to the default only remove candidates; wider ones may add some)
+        mr = case["maxrange"]
+        M = mr if mr >= 2048 else min(1024, true_off + 8 + mr)
+        if M >= true_off + 8:
+            fobj.seek(len(raw) // 3)
+            call = (lambda: XorEncodedFile.from_file(fobj, maxrange=M)) if M % 2 else (lambda: XorEncodedFile.from_file(fobj, M))
+            rm = lib(call, allow=(ValueError,), what=f"XorEncodedFile.from_file(maxrange={M})")
+            stats.count("explicit_maxrange")
+            check(not isinstance(rm, Raised), "detect:maxrange_covers_stub_but_rejected", lambda: f"from_file(maxrange={M}) -> {rm!r}; the nonce and size field end at {true_off + 8}, e_lfanew={case['e_lfanew']}; default range found nonce_offset {r.nonce_offset}")
+            if M <= 1024 and must == [true_off] and not may:
+                eq(rm.nonce_offset, true_off, "detect:maxrange_wrong_offset", f"nonce_offset with maxrange={M}")
+            check(pebuild.scan_mz(bytes(lib(rm.read))) is not None, "detect:no_pe_in_view", lambda: f"view of from_file(maxrange={M})")
     if true_off is not None:
         check(true_off in must or len(case["stub"]) + (3 if case["mode"] != "size_only" else 0) > 1024, "harness:true_offset_not_candidate", ctx)
         if must == [true_off] and not may:
